@@ -3,6 +3,7 @@ package props
 import (
 	"context"
 	"encoding/json"
+	"errors"
 	"fmt"
 	"reflect"
 	"strings"
@@ -136,6 +137,9 @@ func runHistory(c *HistCase) (histStats, error) {
 			cancel()
 		case "run":
 			before, gerr := used.Globals()
+			if errors.Is(gerr, eng.ErrTooBig) {
+				return st, nil // a variable too large to write down: inconclusive from here on
+			}
 			if gerr != nil {
 				return st, fmt.Errorf("step %d: %v", si, gerr)
 			}
@@ -162,6 +166,9 @@ func runHistory(c *HistCase) (histStats, error) {
 			}
 			if a.Panic != nil || b.Panic != nil {
 				return st, fmt.Errorf("step %d: panic escaped: used=%v fresh=%v", si, a.Panic, b.Panic)
+			}
+			if a.TooBig || b.TooBig {
+				return st, nil
 			}
 			if !c.Cancelable && (isTimeout(a.Err) || isTimeout(b.Err)) {
 				return st, nil // the 2 s safety deadline: inconclusive
@@ -274,14 +281,17 @@ func TestC07(t *testing.T) {
 
 // ---- fault histories ----
 
-var faultModes = []string{"ok", "ok", "ok", "ok", "panic", "mod0", "div0", "type", "arity", "unknown", "index", "loopret", "deep-panic", "deep-mod0", "void", "panic", "mod0", "loopret", "ok", "ok", "type", "arity", "deep-panic", "runaway"}
+var faultModes = []string{"ok", "ok", "ok", "ok", "panic", "mod0", "div0", "type", "arity", "unknown", "index", "loopret", "deep-panic", "deep-mod0", "void", "panic", "mod0", "loopret", "ok", "ok", "type", "arity", "deep-panic", "runaway", "dive-panic", "dive-ok", "dive-ok"}
 
 const faultScript = `
 function helper(a) { return a + 1; }
 function nothing() { seen = Name; }
 function spin(n) { return spin(n + 1); }
+function dive(n, bad) { if ( n <= 0 ) { if ( bad ) { panic("bottom"); } return 0; } return 1 + dive(n - 1, bad); }
 function work(v, mode) {
   if ( mode == "runaway" ) { return spin(0); }
+  if ( mode == "dive-panic" ) { return dive(Big, true); }
+  if ( mode == "dive-ok" ) { return dive(Small, false); }
   local acc;
   acc = 0;
   foreach it in Items { acc = acc + len(string(it)); }
@@ -331,6 +341,8 @@ func drawFaultObject(rt *rapid.T) *eng.ObjSpec {
 		{Name: "Depth", V: lang.Int(rapid.Int64Range(1, 3).Draw(rt, "depth"))},
 		{Name: "Extra", V: gen.Scalar(rt, "extra", lang.KInt, lang.KString, lang.KBool)},
 		{Name: "Flag", V: lang.Bool(rapid.Bool().Draw(rt, "flag"))},
+		{Name: "Big", V: lang.Int(rapid.SampledFrom([]int64{9985, 9990, 9993, 9995, 9996, 9997, 5000, 100}).Draw(rt, "big"))},
+		{Name: "Small", V: lang.Int(rapid.Int64Range(0, 60).Draw(rt, "small"))},
 	}}
 	return o
 }
